@@ -825,6 +825,12 @@ func registerIntrinsics(m *Machine) {
 	I["zzStdout"] = func(m *Machine, fr *Frame, a []Value, call ssa.Instruction, d bool) (Value, int) {
 		return done(BV(64, uint64(m.stdoutWrites)))
 	}
+	I["zzExpectSilent"] = func(m *Machine, fr *Frame, a []Value, call ssa.Instruction, d bool) (Value, int) {
+		old := m.stdoutIsFinding
+		m.stdoutIsFinding = true
+		m.trail = append(m.trail, func() { m.stdoutIsFinding = old })
+		return done(nil)
+	}
 	I["zzPoolHavoc"] = func(m *Machine, fr *Frame, a []Value, call ssa.Instruction, d bool) (Value, int) {
 		old := m.poolHavoc
 		m.poolHavoc = true
